@@ -310,7 +310,7 @@ def read_model_initial_conditions(
             layeri = profile.loc[ii].Layer
             InitCond.th[ii] = hydf.th_s.loc[layeri]
 
-    InitCond.thini = InitCond.th
+    InitCond.thini = InitCond.th.copy()
 
     ParamStruct.Soil.profile = profile
     ParamStruct.Soil.Hydrology = hydf
